@@ -32,6 +32,9 @@ visible), and `k1_straggler_lost` shows that this does happen.
 import MetricsVerif.Proofs.Bucket
 import MetricsVerif.Proofs.BucketAll
 import MetricsVerif.Proofs.BucketClear
+import MetricsVerif.Proofs.MsgPass
+import MetricsVerif.Proofs.SrcShapes
+import MetricsVerif.Generated.SourceFacts
 
 namespace MetricsVerif.C05
 open MetricsVerif.Bucket
@@ -188,5 +191,86 @@ example :
     let progs : List (List Call) := [[.push 1, .push 2], [.push 3], [.push 4]]
     let s := run (init 2 progs) [0, 1, 2, 0, 1, 0, 2, 1, 2, 1, 0, 0, 0, 2, 2, 2, 0, 0, 0, 0, 1, 1, 2, 2, 2, 2, 1, 1, 0, 2]
     quiescent s = true ∧ (visible s).Perm [1, 2, 3, 4] ∧ s.blocks.length ≥ 2 := by decide
+
+
+/-! ### the publish/consume idiom under release/acquire, and the source facts that instantiate it
+
+The step machine above interleaves sequentially consistent steps.  "No value is observed before it is fully
+written" additionally needs the slot write to HAPPEN-BEFORE the reader's plain read, which is a fact about the
+memory orderings of `Block::push` (`read.fetch_or`) and `Block::len` (`read.load`), and about the `tail` CAS
+that publishes a freshly initialised block.  `Model/MsgPass` is that idiom with the orderings as parameters;
+the translator supplies the orderings the source uses now. -/
+
+open MetricsVerif.MsgPass in
+/-- any number of writers and readers, every schedule: with a Release publish and an Acquire observe no plain
+    read races with the slot's write, and (whatever the orderings) no slot is read before it was written -/
+theorem publish_consume_no_race (o : Ords) (roles : List Bool) (sched : List Nat) :
+    (MsgPass.run (MsgPass.init o roles) sched).uninit = false
+    ∧ (o.pubRelease = true → o.obsAcquire = true → (MsgPass.run (MsgPass.init o roles) sched).raced = false) := by
+  have h := MsgPass.run_inv _ sched (MsgPass.init_inv o roles)
+  refine ⟨h.2.2.2.1, fun h1 h2 => h.2.2.2.2 ?_ ?_⟩
+  · rw [MsgPass.run_ords]; exact h1
+  · rw [MsgPass.run_ords]; exact h2
+
+open MetricsVerif.MsgPass in
+/-- the orderings are needed: a Relaxed publish (or a Relaxed observe) lets a reader's plain read race -/
+theorem relaxed_publish_races :
+    (MsgPass.run (MsgPass.init { pubRelease := false, obsAcquire := true } [true, false]) [0, 0, 1, 1]).raced = true
+    ∧ (MsgPass.run (MsgPass.init { pubRelease := true, obsAcquire := false } [true, false]) [0, 0, 1, 1]).raced = true := by
+  decide
+
+/-- non-vacuity: two writers, two readers; the second reader sees both slots, nothing races -/
+example :
+    let s := MsgPass.run (MsgPass.init { pubRelease := true, obsAcquire := true } [true, true, false, false])
+      [0, 0, 2, 1, 1, 3, 2, 3]
+    s.readSlots = [1, 0, 0] ∧ s.raced = false ∧ s.uninit = false := by decide
+
+open MetricsVerif.Src in
+/-- slot publication: `Block::push` publishes with `read.fetch_or`, readers observe with `read.load` in `len` -/
+def srcSlotOrds : MsgPass.Ords :=
+  { pubRelease := allRelease Generated.shape_block_push "read.fetch_or",
+    obsAcquire := allAcquire Generated.shape_block_len "read.load" }
+
+open MetricsVerif.Src in
+/-- block publication: both `tail` CASes of `AtomicBucket::push` publish an initialised block; every `tail.load`
+    (push, data_with, clear_with, is_empty) observes it -/
+def srcTailOrds : MsgPass.Ords :=
+  { pubRelease := allRelease Generated.shape_bucket_push "tail.compare_exchange",
+    obsAcquire := allAcquire Generated.shape_bucket_push "tail.load"
+      && allAcquire Generated.shape_bucket_data_with "tail.load"
+      && allAcquire Generated.shape_bucket_clear_with "tail.load"
+      && allAcquire Generated.shape_bucket_is_empty "tail.load" }
+
+/-- SOURCE FACT (regenerated on every run): the orderings the bucket uses now are release/acquire on both idioms -/
+theorem src_bucket_orderings :
+    srcSlotOrds = { pubRelease := true, obsAcquire := true }
+    ∧ srcTailOrds = { pubRelease := true, obsAcquire := true } := by decide
+
+open MetricsVerif.Src in
+/-- SOURCE FACT: the order of the shared-memory operations is the one the step machine's program counters follow:
+    claim → slot write → publish; quiescence reads the published length BEFORE the claim counter; a new block is
+    linked to its predecessor BEFORE the CAS that publishes it; readers check quiescence before reading a block;
+    a clearer detaches with one CAS on `tail`; the block size is 64 -/
+theorem src_bucket_shape :
+    names Generated.shape_block_push = ["write.fetch_add", "_.write", "read.fetch_or"]
+    ∧ names Generated.shape_block_len = ["read.load"]
+    ∧ names Generated.shape_block_is_quiesced = ["self.len", "write.load"]
+    ∧ names Generated.shape_bucket_is_empty = ["tail.load"]
+    ∧ names Generated.shape_bucket_push
+        = ["tail.load", "tail.compare_exchange", "tail_block.push", "next.store", "tail.compare_exchange", "new_tail.push"]
+    ∧ names Generated.shape_bucket_data_with = ["tail.load", "block.is_quiesced", "block.data", "next.load"]
+    ∧ names Generated.shape_bucket_clear_with
+        = ["tail.load", "tail.compare_exchange", "block.is_quiesced", "block.data", "next.load"]
+    ∧ Generated.bucket_block_size = "64" := by decide
+
+/-- the instantiated statement: with the orderings of the current source, no reader of the bucket ever reads a
+    slot (or a block) that races with, or precedes, its initialising write — any number of threads, any schedule -/
+theorem src_no_early_read (roles : List Bool) (sched : List Nat) :
+    (MsgPass.run (MsgPass.init srcSlotOrds roles) sched).raced = false
+    ∧ (MsgPass.run (MsgPass.init srcSlotOrds roles) sched).uninit = false
+    ∧ (MsgPass.run (MsgPass.init srcTailOrds roles) sched).raced = false := by
+  have h := src_bucket_orderings
+  refine ⟨(publish_consume_no_race _ roles sched).2 ?_ ?_, (publish_consume_no_race _ roles sched).1,
+          (publish_consume_no_race _ roles sched).2 ?_ ?_⟩ <;> simp [h.1, h.2]
 
 end MetricsVerif.C05
